@@ -309,6 +309,12 @@ def _classify_source(expr, ptypes):
     b = _strip_suffix(expr, 'iter')
     if b is not None:
         return b, False
+    # D1c (shape-checked): `X . chunks_exact_mut ( N )` with X one identifier and N an integer literal >= 1: the k-th
+    # item is `&mut X[N*k .. N*k + N]`, there are `X.len() / N` items (definition of ChunksExactMut in core, trusted as for
+    # D1; the remainder of fewer than N elements is not visited)
+    if len(expr) == 6 and expr[0][0] == 'id' and _is(expr[1], '.') and _is(expr[2], 'chunks_exact_mut') \
+            and _is(expr[3], '(') and expr[4][0] == 'lit' and expr[4][1].isdigit() and int(expr[4][1]) >= 1 and _is(expr[5], ')'):
+        return expr[:1], ('chunks', int(expr[4][1]))
     if len(expr) == 1 and expr[0][0] == 'id' and expr[0][1] in ptypes:
         ty = _txt(ptypes[expr[0][1]])
         if ty.startswith('& mut ['):
@@ -471,7 +477,14 @@ def _lower_for(pat, expr, loop_ann, body, n, ptypes, log):
             idx_pat, pat = inner_parts
         pats = [pat]
     log.append('D1 `%s` -> index while loop (%s)' % (orig, iv))
-    lens = ['%s . len ( )' % _txt(_paren(b)) for b, _ in sources]
+    lens = [('%s . len ( )' % _txt(_paren(b))) if not isinstance(m_, tuple) else
+            ('( %s . len ( ) / %d )' % (_txt(_paren(b)), m_[1])) for b, m_ in sources]
+    for b, m_ in sources:
+        if isinstance(m_, tuple):
+            if rev:
+                raise Unsupported('D1c: chunks_exact_mut under rev: ' + orig)
+            log.append('D1c `%s.chunks_exact_mut(%d)` -> item k is `&mut %s[%d*k .. %d*k + %d]`, %s.len() / %d items' % (
+                _txt(b), m_[1], _txt(b), m_[1], m_[1], m_[1], _txt(b), m_[1]))
     if len(lens) == 1:
         src = 'let %s = %s ;' % (nv, lens[0])
     else:
@@ -481,6 +494,9 @@ def _lower_for(pat, expr, loop_ann, body, n, ptypes, log):
     index = iv if not rev else '%s - 1 - %s' % (nv, iv)
     rhs = []
     for (b, mut_) in sources:
+        if isinstance(mut_, tuple):
+            rhs.append('& mut %s [ %d * ( %s ) .. %d * ( %s ) + %d ]' % (_txt(_paren(b)), mut_[1], index, mut_[1], index, mut_[1]))
+            continue
         rhs.append('%s %s [ %s ]' % ('& mut' if mut_ else '&', _txt(_paren(b)), index))
     if len(rhs) == 1:
         bind = 'let %s = %s ;' % (_txt(pats[0]), rhs[0])
@@ -1182,6 +1198,26 @@ def rule_d13(toks, log):
             if nxt is not None and _is(nxt, '=') and prev is not None and (
                     _is(prev, 'let') or (_is(prev, 'mut') and prev2 is not None and _is(prev2, 'let'))):
                 bound = True
+            # D13b: bound as a component of a flat tuple pattern `let ( a , NAME , c ) =` (float/src/parse.rs
+            # `let (int, int_digits, base) = ..`): NAME directly preceded by `(` / `,` / `mut` and followed by `,` / `)`,
+            # the enclosing parenthesis opened right after `let` and closed right before `=`
+            if nxt is not None and nxt[0] == 'p' and nxt[1] in (',', ')') and prev is not None and (
+                    (prev[0] == 'p' and prev[1] in ('(', ',')) or _is(prev, 'mut')):
+                o = i
+                depth = 0
+                while o >= 0:
+                    if out[o][0] == 'p' and out[o][1] == ')':
+                        depth += 1
+                    elif out[o][0] == 'p' and out[o][1] == '(':
+                        if depth == 0:
+                            break
+                        depth -= 1
+                    o -= 1
+                if o > 0 and _is(out[o - 1], 'let') and not out[o - 1][2]:
+                    c = _match_close(out, o)
+                    if c + 1 < len(out) and _is(out[c + 1], '=') and not any(
+                            x[0] == 'p' and x[1] in ('(', '[', '{') for x in out[o + 1:c]):
+                        bound = True
         if not bound:
             raise Unsupported('D13: identifier `%s` in the real code is not a `let`-bound local' % nm)
         for i in real:
